@@ -163,7 +163,7 @@ def _gen_placement(r):
         u = gen.units_of(w)[0]
         cands = [(u, "%s/pre0" % u["owner"], "pre", w["funcs"][0]["pre"][0])]
     u, sid, kind, c = r.choice(cands)
-    c["style"] = r.choice(["async", "corolambda", "marked"])
+    c["style"] = r.choice(["async", "corolambda", "marked", "awaitable"])
     td = {"id": "pl", "fn": u["fn"]}
     if u["obj"] is not None:
         td["obj"] = u["obj"]
@@ -280,6 +280,10 @@ def execute(scn):
 
 
 def _execute_placement(scn):
+    present = {sid: c for u in gen.units_of(scn["world"]) for sid, kind, c in gen.site_ids(u)}
+    if scn["site"] not in present or present[scn["site"]].get("style") != scn["style"]:
+        # (a shrunk scenario that lost the misplaced contract says nothing)
+        return {"violations": [], "digest": None, "skipped": "the misplaced contract is not part of the world", "stats": {}}
     run = _run_sync_quiet(scn["world"], [scn["ticket"]])
     o = run.outcomes.get("pl#0")
     v = o["verdict"] if o else None
